@@ -8,6 +8,8 @@ namespace Dlis
 
 abbrev Bytes := List UInt8
 
+deriving instance DecidableEq for Except
+
 /-- Exceptions, by Python class.  Only ok/error is compared with the implementation. -/
 inductive Err
   | struct | value | type | runtime | overflow | unicode | attr | unmodelled
